@@ -27,7 +27,7 @@ SPECIALS = {
 }
 
 
-def make_kwargs_factory(kind, base, status_mode, recv_mode="ok", backpressure=False):
+def make_kwargs_factory(kind, base, status_mode, recv_mode="ok", backpressure=False, map_on=False):
     pk = clientkit.std(kind)
     a = pk["A"]
 
@@ -37,7 +37,7 @@ def make_kwargs_factory(kind, base, status_mode, recv_mode="ok", backpressure=Fa
         gw.pause_policy = lambda idx: idx >= skip
 
     def make(devs):
-        return dict(kind=kind, setup=setup if backpressure else None,
+        return dict(kind=kind, setup=setup if backpressure else None, client_kw={"build_network_map": True} if map_on else None,
                     script=[it_connect, it_feed(a[:7]), it_feed(a[7:]), it_feed(pk["A2"]),
                             it_send(lambda: clientkit.heading_message(66))],
                     specials=SPECIALS, deviations=devs, heal=steady_state(pk["PROBE"]),
@@ -108,7 +108,8 @@ def _explore(args):
     kind, base, status_mode, k, names = args[:5]
     recv_mode = args[5] if len(args) > 5 else "ok"
     bp = bool(args[6]) if len(args) > 6 else False
-    make = make_kwargs_factory(kind, base, status_mode, recv_mode, bp)
+    map_on = bool(args[7]) if len(args) > 7 else False
+    make = make_kwargs_factory(kind, base, status_mode, recv_mode, bp, map_on)
     stats = {"runs": 0, "judged": 0, "outcomes": set(), "boundaries_base": 0, "nontrivial": 0}
     vios = []
     samples = []
@@ -130,7 +131,7 @@ def _explore(args):
             vios.append({"kind": kind_v, "facts": facts,
                          "signature": f"{kind_v}:{kind}:{base}:{status_mode}:{recv_mode}:{[d[1] for d in devs]}",
                          "detail": f"[{kind} base={base} status_cb={status_mode} recv_cb={recv_mode}{' back-pressure' if bp else ''} devs={devs}] {detail}",
-                         "case": {"client": kind, "base": base, "status_cb": status_mode, "recv_cb": recv_mode, "backpressure": bp, "deviations": [list(d) for d in devs]}})
+                         "case": {"client": kind, "base": base, "status_cb": status_mode, "recv_cb": recv_mode, "backpressure": bp, "map_on": map_on, "deviations": [list(d) for d in devs]}})
         if len(samples) < 2 and len(devs) == k:
             samples.append({"client": kind, "base": base, "status_cb": status_mode, "deviations": [list(d) for d in devs],
                             "status": o.status, "attempts": [(round(a.t, 3), a.outcome) for a in sess.gw.attempts]})
@@ -159,6 +160,10 @@ def plan(ctx):
         tasks.append((kind, "r0", "ok", 2, ["close", "reset", "eof", "send"], "ok", True))
         tasks.append((kind, "r0", "slow", 2 if ctx.thorough else 1, ["close", "reset"], "ok", True))
     for kind in vloop.KINDS:
+        # network mapping on: the clients start a task that sends ISO requests 2, 4 and 6 s after connecting;
+        # it must not outlive close() for long nor reopen anything
+        tasks.append((kind, "r0", "ok", 2 if ctx.thorough else 1, ["close", "reset"], "ok", False, True))
+    for kind in vloop.KINDS:
         # close() while a (slow / failing) receive callback is in progress
         tasks.append((kind, "r0", "ok", 2 if ctx.thorough else 1, ["close", "reset", "eof"] if ctx.thorough else ["close"], "slow"))
         tasks.append((kind, "r0", "slow", 1, ["close"], "raise"))
@@ -181,7 +186,7 @@ def run(ctx):
         judged += st["judged"]
         nontriv += st["nontrivial"]
         outcomes += st["outcomes"]
-        per[f"{t[0]}/{t[1]}/{t[2]}/k{t[3]}" + (f"/recv={t[5]}" if len(t) > 5 else "") + ("/backpressure" if len(t) > 6 and t[6] else "")] = {"executions": st["runs"], "judged": st["judged"], "redundant": st["redundant"],
+        per[f"{t[0]}/{t[1]}/{t[2]}/k{t[3]}" + (f"/recv={t[5]}" if len(t) > 5 else "") + ("/backpressure" if len(t) > 6 and t[6] else "") + ("/map" if len(t) > 7 and t[7] else "")] = {"executions": st["runs"], "judged": st["judged"], "redundant": st["redundant"],
                                                "base_boundaries": st["boundaries_base"], "distinct_outcomes": st["outcomes"]}
     cov = {
         "states": judged, "transitions": runs, "traces_validated_against_impl": runs,
@@ -202,7 +207,7 @@ def run(ctx):
 
 def replay(ctx, rep):
     c = rep["case"]
-    make = make_kwargs_factory(c["client"], c["base"], c["status_cb"], c.get("recv_cb", "ok"), c.get("backpressure", False))
+    make = make_kwargs_factory(c["client"], c["base"], c["status_cb"], c.get("recv_cb", "ok"), c.get("backpressure", False), c.get("map_on", False))
     devs = [tuple(d) for d in c["deviations"]]
     sess, o = vloop.run_session(**make(devs))
     sess2, o2 = vloop.run_session(**make(devs))
